@@ -1244,3 +1244,48 @@ class _SetAttribute:
                                lambda: FORALL_MEMBER(s.self, lambda x: rv(s.result) <= rv(x))),
                 "max": IMPLIES(AND(_name_is(s, "max"), ET_IS(s.self, RATIONAL_X)),
                                lambda: FORALL_MEMBER(s.self, lambda x: rv(s.result) >= rv(x)))}
+
+
+# ------------------------------------------------------------------------------------------------ operator chains
+def FOLDL(first, chain, n, named):
+    """((first op_1 r_1) op_2 r_2) ... op_n r_n : the left fold of the first n (operator, right operand) groups"""
+    if smt():
+        return X.fold_term(speclib.CTX, chain, first, n if not isinstance(n, int) else z3.IntVal(n), named)
+    acc = first
+    for item in list(chain)[:n]:
+        acc = item[1](acc, item[3])
+    return acc
+
+
+def LEN_(seq):
+    from pyvc.speclib import LEN
+
+    return LEN(seq)
+
+
+def _same_value(a, b):
+    return a is b or (type(a) is type(b) and a == b)
+
+
+@contract(PTP + "_visit_binary_operator_chain", props=P)
+class _VisitChain:
+    """`operand (op operand)*` evaluates left to right: the operators are applied in the order of appearance, each to
+    (value so far, next operand) - never with the operands swapped.  Two shapes of the chain: the right operands are
+    expression values (all binary operator levels) or identifiers (attribute level)."""
+    instances = [{"children": X.TupleOf(ObjOf(ANY), SeqOf(X.ChainItemK(False)))},
+                 {"children": X.TupleOf(ObjOf(ANY), SeqOf(X.ChainItemK(True)))}]
+    params = dict(_n=X.OpaqueK)
+    returns = ObjOf(ANY)
+    raises_if = {"InvalidOperandError": lambda s: True}
+
+    def post(s):
+        first, chain = s.children[0], s.children[1]
+        named = smt() and chain.kind.named
+        want = FOLDL(first, chain, LEN_(chain), named)
+        return {"left-fold": s.result.ref == want if smt() else _same_value(s.result, want)}
+
+
+@loop_invariant(PTP + "_visit_binary_operator_chain", loop=0)
+def _inv_chain(s):
+    acc = list(s.carried.values())[0]  # the accumulator, whatever the code calls it
+    return {"prefix-folded": acc.ref == X.fold_term(s.ctx, s.seq, s.children[0], s.i, s.seq.kind.named)}
